@@ -21,7 +21,7 @@ fn stub_shuffle256_epi8(a: __m256i, b: __m256i) -> __m256i {
     unsafe { core::mem::transmute(r) }
 }
 
-//@ h=agg_avx2_kernel props=C07,C17 cfgs=K6 tier=q t=900 | funcs: x86_avx2::sub_aggregation | bound: any 8 u32 counters x all q1<=q2<=q3: (hi, lo) bytes == packed reference dibits of counters 4..7 and 0..3 | stubs: _mm256_shuffle_epi8 -> Intel pseudo-code
+//@ h=agg_avx2_kernel props=C01,C07,C17 cfgs=K6 tier=q t=900 | funcs: x86_avx2::sub_aggregation | bound: any 8 u32 counters x all q1<=q2<=q3: (hi, lo) bytes == packed reference dibits of counters 4..7 and 0..3 | stubs: _mm256_shuffle_epi8 -> Intel pseudo-code
 #[kani::proof]
 #[kani::unwind(34)]
 #[kani::stub(core::arch::x86_64::_mm256_shuffle_epi8, stub_shuffle256_epi8)]
@@ -63,9 +63,9 @@ macro_rules! agg_struct {
         }
     };
 }
-//@ h=agg_avx2_48 props=C07,C17 cfgs=K6 tier=q t=900 | funcs: x86_avx2::aggregate_48 | bound: all inputs: digest bytes 2p,2p+1 == real kernel on buckets 8(5-p).. | stubs: _mm256_shuffle_epi8 pseudo-code
+//@ h=agg_avx2_48 props=C01,C07,C17 cfgs=K6 tier=q t=900 | funcs: x86_avx2::aggregate_48 | bound: all inputs: digest bytes 2p,2p+1 == real kernel on buckets 8(5-p).. | stubs: _mm256_shuffle_epi8 pseudo-code
 agg_struct!(agg_avx2_48, aggregate_48, 48, 12, 52);
-//@ h=agg_avx2_128 props=C07,C17 cfgs=K6 tier=t t=1800 | funcs: x86_avx2::aggregate_128 | bound: all inputs | stubs: _mm256_shuffle_epi8 pseudo-code
+//@ h=agg_avx2_128 props=C01,C07,C17 cfgs=K6 tier=t t=1800 | funcs: x86_avx2::aggregate_128 | bound: all inputs | stubs: _mm256_shuffle_epi8 pseudo-code
 agg_struct!(agg_avx2_128, aggregate_128, 128, 32, 132);
-//@ h=agg_avx2_256 props=C07,C17 cfgs=K6 tier=t t=2400 | funcs: x86_avx2::aggregate_256 | bound: all inputs | stubs: _mm256_shuffle_epi8 pseudo-code
+//@ h=agg_avx2_256 props=C01,C07,C17 cfgs=K6 tier=t t=2400 | funcs: x86_avx2::aggregate_256 | bound: all inputs | stubs: _mm256_shuffle_epi8 pseudo-code
 agg_struct!(agg_avx2_256, aggregate_256, 256, 64, 260);
